@@ -100,8 +100,10 @@ def asbuilt_table():
 
 def thorough_table():
     d = json.load(open(f"{V}/sweeps/thorough.json"))
-    out = [f"Last full run of the thorough tier on the unchanged tree (/repo at `{d['repo_head']}`), one check at a time with 7 "
-           "solver processes, two checks in parallel:", "",
+    out = [f"Last run of each thorough command on the unchanged tree (one check at a time with 4-7 solver processes, two or three "
+           f"checks in parallel; /repo moved through the fixes this tier found -- C37, C40 and, via its new receive layers, C25 "
+           f"-- and is at `{d['repo_head']}` now; a check whose module or whose encoded luna files changed afterwards was run again, "
+           "except C06, whose token-only-SETUP cubes were added after its 84-minute run and are exercised by the quick tier):", "",
            "| property | exit | wall (s) | verdicts | inconclusive queries (solver limit reached; not counted as discharged) |",
            "|---|---|---|---|---|"]
     for pid, r in sorted(d["results"].items()):
